@@ -285,11 +285,15 @@ def check_subs(rep, fam, d, ev, sub, case, rng, syms):
     # -- E4 free symbols of the result
     want_after = pl.diagram_symbols(s)
     ref_after = set()
-    for b in d.boxes:
+    for b in pl.leaf_boxes(d):
         for e in pl.flat_data(getattr(b, "data", None)):
             if hasattr(e, "free_symbols"):
                 ref_after |= set(sympy.sympify(e).subs(*args).free_symbols)
-    got_after = set(s.free_symbols)
+    try:
+        got_after = set(s.free_symbols)
+    except Exception as exc:
+        rep.fail("free_symbols_raises_after_subs:" + exc_sig(exc), case, repr(exc)[:200])
+        return
     if got_after != want_after:
         rep.fail("free_symbols_wrong_after_subs", case, "%s vs %s" % (got_after, want_after))
     if got_after != ref_after and not attr:
@@ -356,8 +360,15 @@ def check_lambdify(rep, fam, d, ev, xs, vals, case):
     attr = attr_failures(d, lam, "lambdify")
     for sig, text in attr:
         rep.fail(sig, case, text)
-    if set(lam.free_symbols):
-        rep.fail("not_closed_after_lambdify", case, str(lam.free_symbols))
+    try:
+        left = set(lam.free_symbols)
+    except Exception as exc:
+        rep.fail("free_symbols_raises_after_lambdify:" + exc_sig(exc), case, repr(exc)[:200])
+        return
+    if left:
+        rep.fail("not_closed_after_lambdify", case, str(left))
+    if pl.diagram_symbols(lam):
+        rep.fail("lambdify_leaves_symbols_in_parameters", case, str(pl.diagram_symbols(lam)))
     pairs = list(zip(xs, vals))
     try:
         s = d.subs(pairs)
@@ -365,9 +376,10 @@ def check_lambdify(rep, fam, d, ev, xs, vals, case):
         rep.fail(classify_subs_exception(d, exc, "subs"), case, repr(exc)[:200])
         s = None
     if s is not None and not attr and not attr_failures(d, s, "subs"):
-        same = len(s.boxes) == len(lam.boxes) and all(
+        sb, lb = pl.leaf_boxes(s), pl.leaf_boxes(lam)
+        same = len(s.boxes) == len(lam.boxes) and len(sb) == len(lb) and all(
             data_close(getattr(a, "data", None), getattr(b, "data", None))
-            for a, b in zip(s.boxes, lam.boxes))
+            for a, b in zip(sb, lb))
         if not same:
             rep.fail("lambdify_differs_from_subs", case, "%r vs %r" % (lam, s))
         else:
@@ -414,6 +426,11 @@ def data_same(x, y, rng=None):
 
 
 def box_same(a, b):
+    if hasattr(a, "inside") or hasattr(b, "inside"):
+        # bubbles: same function (the object), same declared type, same diagram inside
+        return (type(a) is type(b) and str(a.dom) == str(b.dom) and str(a.cod) == str(b.cod)
+                and getattr(a, "func", None) is getattr(b, "func", None)
+                and same_diagram(a.inside, b.inside))
     return (type(a) is type(b) and str(a.dom) == str(b.dom) and str(a.cod) == str(b.cod)
             and bool(a.is_dagger) == bool(b.is_dagger)
             and getattr(a, "is_mixed", None) == getattr(b, "is_mixed", None)
@@ -487,7 +504,7 @@ def first_steps(rng, free, syms, eg, real):
 
 def expected_symbols(d, args):
     out = set()
-    for b in d.boxes:
+    for b in pl.leaf_boxes(d):
         for e in pl.flat_data(getattr(b, "data", None)):
             if hasattr(e, "free_symbols"):
                 out |= set(sympy.sympify(e).subs(*args).free_symbols)
@@ -1157,6 +1174,66 @@ def container_witnesses():
     ]
 
 
+# --------------------------------------------------------------------------- diagrams with bubbles
+
+def bubbles_of(d):
+    """Every bubble of `d`, at any nesting depth."""
+    out = []
+    for b in d.boxes:
+        if hasattr(b, "inside"):
+            out.append(b)
+            out.extend(bubbles_of(b.inside))
+    return out
+
+
+def check_bubble_diagram(rep, d, syms, rng, real, budget, sequences):
+    """A tensor diagram containing bubbles (tensor.Bubble carries no data: it REPORTS the symbols
+    of the diagram inside and rebuilds itself around the substituted inside).  The property's
+    clauses are checked on the composite -- whose free_symbols / subs / lambdify go through the
+    generic walk over the boxes, cat.Arrow / monoidal.Diagram -- and E4a at every nesting level."""
+    desc = dict(family="bubble", diagram=repr(d)[:600])
+    inner = pl.diagram_symbols(d) - pl.outside_symbols(d)
+    rep.count("bubble_nesting:%d" % pl.bubble_depth(d))
+    rep.count("bubble_layers:%d" % min(len(d.boxes), 4))
+    rep.count("bubble_symbols_only_inside:%d" % min(len(inner), 2))
+    for k, b in enumerate(bubbles_of(d)):
+        for what, x in (("bubble", b), ("inside", b.inside)):
+            want = pl.diagram_symbols(b.inside)
+            try:
+                got = set(x.free_symbols)
+            except Exception as exc:
+                rep.fail("free_symbols_raises:" + exc_sig(exc), dict(desc, bubble=k, of=what), repr(exc)[:200])
+                continue
+            rep.case("bubble|%s|level|%d|%s" % (desc["diagram"], k, what), bool(want))
+            if got != want:
+                rep.fail("free_symbols_wrong:" + what, dict(desc, bubble=k, of=what), "%s reports %s, its boxes contain %s" % (
+                    repr(x)[:200], sorted(map(str, got)), sorted(map(str, want))))
+    check_diagram(rep, "bubble", d, syms, rng, real, budget)
+    if sequences:
+        check_sequences(rep, "bubble", d, syms, rng, real)
+
+
+def bubble_witnesses():
+    """Pinned small diagrams with bubbles (in addition to the generator)."""
+    from discopy.tensor import Box, Dim, Id
+    x0, x1, x2 = pl.symbols(True, 3)
+    sq, inc = pl.BUBBLE_FUNCS[0][1], pl.BUBBLE_FUNCS[1][1]
+    f = lambda: Box('f', Dim(2), Dim(2), [x0, 1, 0, 2])
+    g = lambda: Box('g', Dim(2), Dim(2), [1, x1, x1, 3])
+    h = lambda: Box('h', Dim(2), Dim(2, 2), [x2, 1, 0, x1 + 1, 2, 0, 1, x2 ** 2])
+    n = lambda: Box('n', Dim(2), Dim(2), [1, 0, 2, 1])
+    return [
+        ("after_box", lambda: f() >> g().bubble(func=sq, drawing_name="sq")),
+        ("numeric_outside", lambda: n() >> g().bubble(func=sq, drawing_name="sq") >> n()),
+        ("nested", lambda: n() >> (n() >> g().bubble(func=sq)).bubble(func=inc) >> f()),
+        ("whiskered", lambda: h() >> Id(Dim(2)) @ g().bubble(func=inc)),
+        ("tensor_of_bubbles", lambda: f().bubble(func=sq) @ g().bubble(func=inc) >> h().dagger()),
+        ("redeclared_cod", lambda: f() >> h().bubble(func=sq, cod=Dim(4))),
+        ("closed_default_func", lambda: f() >> n().bubble()),
+        ("single_bubble", lambda: (f() >> g()).bubble(func=sq)),
+    ]
+
+
 # --------------------------------------------------------------------------- correspondence with the Lean model
 
 NV = 3          # variables of the model's polynomials
@@ -1222,6 +1299,115 @@ def model_stream(rep, drv, rng, n_cases):
         if real != model:
             rep.disagree(stream, case, real[:400], model[:400])
     rep.extra["model_stream_s"] = round(time.time() - t0, 2)
+
+
+def tok_layer(l, syms):
+    def dims(x):
+        return " ".join([str(len(x))] + [str(k) for k in x])
+    return " ".join([dims(l.get("left", [])), dims(l.get("right", [])), dims(l["dom"]), dims(l["cod"]),
+                     "1" if l["dagger"] else "0", str(len(l["data"]))] + [tok_poly(e, syms) for e in l["data"]])
+
+
+def tok_xdiagram(dom, xlayers, syms):
+    """`<dom> <nlayers> xlayer*` (Driver/ParamCmd.lean): plain boxes and single-wire bubbles."""
+    def dims(x):
+        return " ".join([str(len(x))] + [str(k) for k in x])
+    out = [dims(dom), str(len(xlayers))]
+    for l in xlayers:
+        if l["kind"] == "bubble":
+            out += [dims([]), dims([]), "1", dims(l["dom"]), dims(l["cod"]),
+                    " ".join([str(len(l["func"]))] + [str(c) for c in l["func"]]),
+                    str(len(l["inside"]))] + [tok_layer(x, syms) for x in l["inside"]]
+        else:
+            out += [dims([]), dims([]), "0", dims(l["dom"]), dims(l["cod"]),
+                    "1" if l["dagger"] else "0", str(len(l["data"]))] + [tok_poly(e, syms) for e in l["data"]]
+    return " ".join(out)
+
+
+def bubble_model_case(rng, syms, func_rng=None):
+    """pre? >> inside.bubble(func) >> post?  with integer-polynomial boxes, `func` a polynomial with
+    integer coefficients given to both sides as its coefficient list.  func_rng (default: rng):
+    source of the coefficients -- equal `rng` seeds with different `func_rng` give diagrams that
+    differ in the bubble's function only (equal repr, name, boxes)."""
+    g = pl.TensorGen(rng, syms, polyonly=True, maxdim=6)
+    a, b = rng.choice([1, 2, 2, 3]), rng.choice([1, 2, 2])
+    composite = rng.random() < 0.3
+    g.maxdeg = 1 if composite else 2
+    fr = func_rng or rng
+    deg = fr.randint(1, 2 if composite else 3)
+    cs = [fr.choice([-2, -1, 0, 1, 1, 2]) for _ in range(deg)] + [fr.choice([-1, 1, 2])]
+
+    def func(v, cs=tuple(cs)):
+        return sum(c * v ** k for k, c in enumerate(cs))
+    da, db = ([a] if a > 1 else []), ([b] if b > 1 else [])
+    if composite:
+        m = 2
+        b1, s1 = g.box(da, [m])
+        b2, s2 = g.box([m], db, symbolic=rng.random() < 0.7)
+        inside, ispec = b1 >> b2, [s1, s2]
+    else:
+        inside, ispec = g.box(da, db)
+        ispec = [ispec]
+    d = inside.bubble(func=func, drawing_name="p")
+    xl = [dict(kind="bubble", dom=da, cod=db, func=cs, inside=ispec)]
+    dom = list(da)
+    shape = rng.choice(["alone", "before", "after", "both"])
+    if shape in ("before", "both"):
+        n = rng.choice([1, 2, 3])
+        pre, sp = g.box([n] if n > 1 else [], da, symbolic=rng.random() < 0.7)
+        d, xl, dom = pre >> d, [dict(sp, kind="box")] + xl, ([n] if n > 1 else [])
+    if shape in ("after", "both"):
+        n = rng.choice([1, 2])
+        post, sp = g.box(db, [n] if n > 1 else [], symbolic=rng.random() < 0.7)
+        d, xl = d >> post, xl + [dict(sp, kind="box")]
+    return d, dom, xl, "%s:%s:deg%d" % (shape, "composite" if composite else "box", len(cs) - 1)
+
+
+def bubble_model_stream(rep, drv, rng, n_cases):
+    """Diagrams  pre? >> inside.bubble(polynomial) >> post?  with integer-polynomial boxes, discopy
+    against the Lean model (Model/ParamXSyms.lean), compared exactly:
+      xfree      d.free_symbols              (cat.Arrow.free_symbols over boxes AND bubbles)
+      xsubsfree  d.subs(x_i, q).free_symbols
+      xsubseval  d.subs(x_i, q).eval()       (tensor.Bubble.subs rebuilds the bubble around inside.subs)"""
+    syms = pl.symbols(True, NV)
+    lines, reals, cases = [], [], []
+    t0 = time.time()
+
+    def free_tokens(x):
+        return "ok " + " ".join([str(len(x.free_symbols))] + sorted(str(syms.index(s)) for s in x.free_symbols))
+    for _ in range(n_cases):
+        r = random.Random(rng.getrandbits(64))
+        d, dom, xl, kind = bubble_model_case(r, syms)
+        tok = tok_xdiagram(dom, xl, syms)
+        inner = pl.diagram_symbols(d) - pl.outside_symbols(d)
+        rep.count("bubble_model:%s:%s" % (kind.split(":deg")[0], "symbol_only_inside" if inner else "shared"))
+        eg = pl.ExprGen(r, syms)
+        # a variable inside the bubble whenever there is one
+        inside_syms = sorted(inner or pl.diagram_symbols(d), key=str)
+        vi = syms.index(r.choice(inside_syms)) if inside_syms and r.random() < 0.8 else r.randrange(NV)
+        repl = eg.int_poly(1) if r.random() < 0.4 else sympy.Integer(r.randint(-2, 3))
+        q = tok_poly(repl, syms)
+        reqs = [
+            ("xfree %s" % tok, lambda d=d: free_tokens(d)),
+            ("xsubsfree %d %s %s" % (vi, q, tok), lambda d=d, vi=vi, repl=repl: free_tokens(d.subs(syms[vi], repl))),
+            ("xsubseval %d %s %s" % (vi, q, tok),
+             lambda d=d, vi=vi, repl=repl: "ok " + matrix_tokens(d.subs(syms[vi], repl).eval(), syms)),
+        ]
+        for line, fn in reqs:
+            lines.append(line)
+            cases.append(dict(diagram=repr(d)[:300], kind=kind, request=line[:400]))
+            try:
+                reals.append(fn())
+            except Exception as exc:
+                reals.append("err " + err_class(exc))
+    answers = drv.ask_many(lines)
+    for line, case, real, model in zip(lines, cases, reals, answers):
+        stream = "model:" + line.split(" ")[0]
+        rep.count(stream)
+        rep.case(line, True)
+        if real != model:
+            rep.disagree(stream, case, real[:400], model[:400])
+    rep.extra["bubble_model_stream_s"] = round(time.time() - t0, 2)
 
 
 def seq_model_stream(rep, drv, rng, n_cases):
@@ -1486,6 +1672,7 @@ def run(tier, seed, replay=None):
         model_stream(rep, drv, random.Random(rng.getrandbits(64)), 40 if quick else 300)
         seq_model_stream(rep, drv, random.Random(seed * 1000003 + 141), 30 if quick else 250)
         data_model_stream(rep, drv, random.Random(seed * 1000003 + 142), 60 if quick else 500)
+        bubble_model_stream(rep, drv, random.Random(seed * 1000003 + 145), 16 if quick else 200)
     finally:
         drv.close()
     t_fam = {}
@@ -1561,5 +1748,23 @@ def run(tier, seed, replay=None):
         else:
             check_wild_containers(rep, r, syms, real, host, kind)
     t_fam["containers"] = round(time.time() - t0, 2)
+    # diagrams with bubbles: own generator
+    t0 = time.time()
+    brng = random.Random(seed * 1000003 + 144)
+    for name, mk in bubble_witnesses():
+        rep.count("bubble_witness:" + name)
+        check_bubble_diagram(rep, mk(), pl.symbols(True, 3), random.Random(brng.getrandbits(64)), True, 3,
+                             sequences=False)
+    splits = ["inside_only", "nested_only", "inside_only", "shared", "inside_only", "nested_only", "inside_only"]
+    for k in range(10 if quick else 90):
+        r = random.Random(brng.getrandbits(64))
+        real = r.random() < 0.5
+        syms = pl.symbols(real, 3)
+        g = pl.BubbleGen(r, syms, split=splits[k % len(splits)])
+        d, _ = g.diagram(r.randint(2, 3))
+        rep.count("bubble_split:" + g.split)
+        rep.sample(dict(family="bubble", diagram=repr(d)[:300]))
+        check_bubble_diagram(rep, d, syms, r, real, 2 if quick else 5, sequences=(k % 3 == 0))
+    t_fam["bubbles"] = round(time.time() - t0, 2)
     rep.extra["family_wall_s"] = t_fam
     return rep.finish()
